@@ -1,4 +1,5 @@
 import NauyacaVerif.Gen.Fn.LimiterRequest
+import NauyacaVerif.Gen.Fn.BucketInit
 import NauyacaVerif.Mw.StorePy
 /-!
 `RateLimiter.process_request`, TRANSLATED (regenerated from the current source on every run) over the Python-level store of
@@ -91,6 +92,18 @@ theorem limiter_request_eq (c : LCfg) (retry : Int) (now : Rat) (w : PyStore) (i
       rcases hq with rfl | hq
       · exact hp
       · exact hu' q hq
+
+/-- `TokenBucket.__init__`, translated: whatever the object held before, it is now a FULL bucket of the given capacity and rate,
+    stamped with the current time (`float(capacity)` is the same number: the translation computes in `Rat`) -/
+theorem bucket_init_eq (s0 : Fn.BucketSt) (now cap rate : Rat) :
+    (Fn.bucketInit s0 now cap rate).1 = { capacity := cap, refill_rate := rate, tokens := cap, last_update := now } := rfl
+
+/-- ... and that is the object `pyPut` - the store operation the translation of `process_request` uses for
+    `self.buckets[ip] = TokenBucket(cap, rate)` - puts under the address -/
+theorem pyPut_is_init (s0 : Fn.BucketSt) (now : Rat) (w : PyStore) (ip : Ip) (cap rate : Rat) :
+    pyPut now w ip cap rate =
+      (ip, { cap := (Fn.bucketInit s0 now cap rate).1.capacity, rate := (Fn.bucketInit s0 now cap rate).1.refill_rate,
+             tokens := (Fn.bucketInit s0 now cap rate).1.tokens, last := (Fn.bucketInit s0 now cap rate).1.last_update }) :: w.filter (·.1 != ip) := rfl
 
 -- non-vacuity: a fresh address is admitted and its bucket created; with capacity 1 the second request at the same instant is refused
 -- with the configured hint, and another address is untouched by it
